@@ -156,7 +156,7 @@ fn main() {
         let l = if matches!(op, 0 | 3 | 4 | 7 | 8 | 12) { l } else { n };
         let spare = if (op == 0 || op == 4) && rng.chance(1, 2) { 1 + rng.below(40) as usize } else { 0 };
         let calls = calls_of(op, n, l);
-        let pan = if calls > 0 && rng.chance(2, 3) && !(kind == 2 && op == 5) { rng.below(calls as u64) as i64 } else { -1 };
+        let pan = if calls > 0 && rng.chance(2, 3) { rng.below(calls as u64) as i64 } else { -1 };
         let aux = if op == 11 { rng.below(n as u64 + 1) as i128 } else if op == 7 || op == 12 { rng.below(2) as i128 } else { 0 };
         dist("seeded");
         do_case(&Case { op, kind, n, l, spare, pan, fail: -1, aux });
